@@ -70,6 +70,10 @@ RawFam == LET p == QMod IN
   { Zero, One, Sub(Pow2(384), One), Sub(Pow2(384), Two), Pow2(383), Sub(Pow2(383), One), Pow2(64), Sub(Pow2(64), One),
     Pow2(320), Sub(Pow2(320), One), Sub(Pow2(384), Pow2(64)), p, Sub(p, One), Add(p, One), ShiftR(p, 1), Add(ShiftR(p, 1), One),
     TopWordOf(p, 48, 64), Sub(Pow2(384), p), Sub(Pow2(192), One), Pow2(192), ModN(Pow2(768), p) }
+DivFam == LET x == XAbs IN
+  { x, Mul(x, x), Add(Mul(x, Pow2(64)), Pow2(63)), Add(Mul(Mul(FromNat(3), x), Pow2(62)), Sub(Pow2(62), One)), Add(Mul(Mul(FromNat(5), x), Pow2(128)), Pow2(127)),
+    Add(Mul(x, Pow2(180)), Sub(Pow2(180), One)), Add(Mul(Mul(FromNat(65537), x), Pow2(100)), Pow2(99)), Mul(x, Pow2(320)), Sub(Mul(x, Pow2(64)), One),
+    Add(Mul(x, Pow2(64)), Sub(x, One)), Add(Mul(Sub(x, One), Pow2(64)), Sub(Pow2(64), One)), Mul(x, Sub(Pow2(64), One)) }
 Impls == {"member", "base", "bmi2"}
 Unred == LET p == QMod IN { p, Add(p, One), Sub(Pow2(383), One), Pow2(383), Add(Pow2(383), One), Sub(Pow2(384), One), Sub(Pow2(384), p), Add(Pow2(383), ShiftR(p, 1)),
                           Add(ShiftR(p, 1), Pow2(383)), Sub(Add(p, p), One), Add(p, p), Sub(p, One), One, Zero }
@@ -98,6 +102,8 @@ RawCases ==
      \o SetToSeq({ [op |-> "raw.sqr", impl |-> im, a |-> LE(x, 48), src |-> "gen"] : im \in Impls, x \in RawFam \cup fam })
      \o SetToSeq({ [op |-> "raw.redc", impl |-> im, w |-> LE(x, 96), p |-> LE(p, 48), inv |-> LE(inv, 48), src |-> "gen"] : im \in Impls, x \in wide })
      \o SetToSeq({ [op |-> o, a |-> LE(x, 48), alias |-> al, src |-> "gen"] : o \in {"raw.copy", "raw.shr1", "raw.divdword", "raw.divword"}, x \in RawFam, al \in {0, 1} })
+     \* dividends in which a leading part is an exact multiple of the divisor |x| (the bit-serial fallback's partial remainder then EQUALS the divisor)
+     \o SetToSeq({ [op |-> "raw.divdword", a |-> LE(x, 48), alias |-> 0, src |-> "gen"] : x \in DivFam })
      \o SetToSeq({ [op |-> o, a |-> LE(x, 48), amt |-> k, alias |-> al, src |-> "gen"] :
                    o \in {"raw.shr", "raw.shl"}, x \in {Sub(Pow2(384), One), p, Sub(Pow2(383), One), Add(Pow2(320), Pow2(63))},
                    k \in {0, 1, 31, 32, 33, 63, 64, 65, 127, 128, 200, 256, 319, 320, 383}, al \in {0, 1} })
